@@ -1,12 +1,14 @@
 import Rare.Base.GoInt
 import Rare.Model.C20
 /-!
-# C14 model: scalers, bar/heat/spark glyph writers, table layout, the five renderers
+# C14 model: scalers, bar/heat/spark glyph writers, table layout, the renderers and how the commands drive them
 
 Mirrors (branch by branch) `pkg/multiterm/termscaler/scale.go`, `pkg/multiterm/termunicode/{bars,heat,spark}.go`,
 `pkg/color/coloring.go` (`Wrap`, `Write`, `HighlightSingleRune`, `StrLen`),
-`pkg/multiterm/termrenderers/{table,histoWriter,bargraph,datatable,heatmap,spark}.go` as they are
-AFTER the repairs b2c2a9f, 7206d40, 0b7fa09, a20c03a, b1ca348, 9780d5d, 6408ebf, writing into the `VirtualTerm` model of C20.
+`pkg/multiterm/termrenderers/{table,histoWriter,bargraph,datatable,heatmap,spark}.go`, the render callbacks of
+`cmd/{histo,bargraph,reduce}.go` and `pkg/multiterm/termformat/scaleformatter.go` as they are
+AFTER the repairs b2c2a9f, 7206d40, 0b7fa09, a20c03a, b1ca348, 9780d5d, 6408ebf, c54b92c, 73473fc, writing into the
+`VirtualTerm` model of C20.  (`termformat/expression.go` is in `C14Format.lean`.)
 
 * Every Go panic source is an explicit `.error` (index out of range, slice bounds, negative
   `strings.Repeat`/`make`, integer divide by zero).  Loops whose termination is not structural carry fuel.
@@ -14,6 +16,9 @@ AFTER the repairs b2c2a9f, 7206d40, 0b7fa09, a20c03a, b1ca348, 9780d5d, 6408ebf,
   code uses (`Arith α`).  Theorems instantiate `α := Rat` (`ratArith L` with an abstract monotone
   logarithm `L`); only the driver instantiates `α := Float`.
 * Text is `Bytes`; rune iteration is `C20.decodeUtf8` (Go semantics: every bad byte is U+FFFD).
+* A formatter is a function of (value, min, max) (`Fmt`); every renderer passes the range it passes in Go.
+* The table-based renderers (data table, sparkline, reduce table) are sequences of `TableOp`s (`WriteRow` /
+  `WriteFooter` calls) run by `TableWriter.runOps`; their scripts are pure functions of the aggregated state.
 -/
 namespace Rare.C14
 open Rare Rare.C20
